@@ -759,3 +759,23 @@ func (s *State) ConstObjOnPath(info *types.Info, e ast.Expr) *types.Const {
 	}
 	return nil
 }
+
+// Precedes reports whether a comes before b in root's source order as analysed (pre-order position in
+// the tree, not token positions: an inlined body keeps the positions of the helper it came from).
+func Precedes(root, a, b ast.Node) bool {
+	ia, ib, i := -1, -1, 0
+	ast.Inspect(root, func(n ast.Node) bool {
+		if n == nil {
+			return false
+		}
+		if n == a && ia < 0 {
+			ia = i
+		}
+		if n == b && ib < 0 {
+			ib = i
+		}
+		i++
+		return ia < 0 || ib < 0
+	})
+	return ia >= 0 && ib >= 0 && ia < ib
+}
